@@ -460,6 +460,47 @@ def thorough_extras(prop, vunits, scratch_root):
     return canary.run(prop, vunits, scratch_root, run_verus_unit, REPO)
 
 
+_HINT_DEPS = None
+
+
+def explained_by_lost_hint(f, r):
+    """A failing obligation of function F is not held against the code when a proof hint of F could not be placed on this
+    tree (its anchor text is gone) and, on the unchanged tree, the obligation's proof NEEDS that hint (hint_deps.json,
+    computed by tools/hint_deps.py by leaving each hint out in turn).  Returns the reason, or None when no lost hint
+    explains the failure (then it is a violation).  A lost `replace` is not a lost proof: the text it would have rewritten
+    is simply absent and the function was verified as it stands."""
+    global _HINT_DEPS
+    lost = []
+    for rep in r.get("report", []):
+        if not isinstance(rep, dict) or rep.get("item") != f.get("fn"):
+            continue
+        for w in rep.get("rewrites", []):
+            if w.startswith("LOST") and "LOST: replace:" not in w:
+                lost.append(w)
+    if not lost:
+        return None
+    if _HINT_DEPS is None:
+        try:
+            _HINT_DEPS = json.load(open(os.path.join(VERIF, "hint_deps.json")))
+        except Exception:
+            _HINT_DEPS = {}
+    table = _HINT_DEPS.get(r["unit"], {}).get(f.get("fn"), {})
+    for w in lost:
+        m = re.match(r"LOST: proof-hint anchor (.*) #(\d+) not found", w)
+        if not m:
+            return "a contract or alias of the function could not be attached: " + w[:120]
+        try:
+            anchor = __import__("ast").literal_eval(m.group(1))
+        except Exception:
+            return "lost hint not identifiable: " + w[:120]
+        needs = table.get(f"{anchor}#{m.group(2)}")
+        if needs is None:
+            return f"lost hint {anchor[:60]!r} is not in hint_deps.json"
+        if needs == "*" or f["obligation"] in needs:
+            return f"its proof needs the hint at {anchor[:60]!r}, which is gone"
+    return None
+
+
 def finish(prop, args, seed, t0, results):
     known = [k for k in load_known() if k["prop"] == prop]
     infra = [r["infra"] for r in results if r.get("infra")]
@@ -482,6 +523,7 @@ def finish(prop, args, seed, t0, results):
         seen.add(f["obligation"]); uniq.append((f, r))
     failures = uniq
     hint_fail = []
+    unfit = []
     for f, r in failures:
         k = next((k for k in known if k["obligation"] == f["obligation"]), None)
         if k:
@@ -489,7 +531,16 @@ def finish(prop, args, seed, t0, results):
         elif f.get("hint_only"):
             hint_fail.append((f, r))
         else:
-            violations.append((f, r))
+            why = explained_by_lost_hint(f, r)
+            if why:
+                unfit.append((f, r, why))
+            else:
+                violations.append((f, r))
+    if unfit and not violations:
+        # the obligation fails, but a proof hint its proof needs on the unchanged tree could not be placed on this code:
+        # the proof script does not fit the changed function, which says nothing about the property (undecided)
+        infra.append("obligation(s) fail in a function whose proof hints could not be placed (undecided): "
+                     + "; ".join(f"{f['obligation']} [{why}]" for f, _, why in unfit[:4]))
     if hint_fail and not violations:
         # only proof-script assertions fail, no contract clause and no obligation of the code itself: undecided
         infra.append("proof hint(s) of the unit no longer hold on this code and nothing else fails (the proof script does not "
